@@ -215,7 +215,7 @@ func bootEnv(e *WEnv) error {
 // ---------------------------------------------------------------- extra wallet-level ops
 
 func walletStatusOf(e *WEnv, w string) string {
-	for _, it := range strings.Split(e.Wallets(), ",") {
+	for _, it := range strings.Split(unfaulted(e, e.Wallets), ",") {
 		if strings.HasPrefix(it, w+":") {
 			return it[len(w)+1:]
 		}
